@@ -202,16 +202,28 @@ theorem sortPairs_eq_nil (l : List (Nat × Nat)) (h : sortPairs l = []) : l = []
 
 /-- on a flat signature a call that binds has no keyword of a positional-only name: the keywords that can reach a
     parameter are all keywords, and the extra keywords are those that name no parameter at all -/
-theorem flat_kw (s : Sig) (kw : List (Nat × Nat)) (hs : s.flat = true)
+theorem flat_kw (s : Sig) (args : List Nat) (kw : List (Nat × Nat)) (hs : callFlat s args kw = true)
     (hex : (!(sortPairs (kw.filter fun p => !s.argNames.contains p.1 || s.poNames.contains p.1)).isEmpty && !s.varkw) = false) :
     (kw.filter fun p => !s.poNames.contains p.1) = kw ∧
     sortPairs (kw.filter fun p => !s.argNames.contains p.1 || s.poNames.contains p.1) = extras kw s.argNames := by
-  simp only [Sig.flat, Bool.and_eq_true, Bool.or_eq_true, Bool.not_eq_true', beq_iff_eq] at hs
-  cases hs.2 with
-  | inl h0 =>
-    have : s.poNames = [] := by simp [Sig.poNames, h0]
+  simp only [callFlat, Bool.and_eq_true, Bool.or_eq_true, Bool.not_eq_true', Bool.and_eq_false_iff, bne_eq_false_iff_eq,
+    List.all_eq_true] at hs
+  rcases hs.2 with (h0 | hv) | hall
+  · have : s.poNames = [] := by simp [Sig.poNames, h0]
     simp [this, extras]
-  | inr hv =>
+  rotate_left
+  · have hf : ∀ p ∈ kw, s.poNames.contains p.1 = false := by
+      intro p hp; simpa using hall p hp
+    constructor
+    · apply List.filter_eq_self.mpr
+      intro p hp
+      rw [hf p hp]; rfl
+    · simp only [extras]
+      congr 1
+      apply List.filter_congr
+      intro p hp
+      rw [hf p hp]; simp
+  ·
     simp only [hv, Bool.not_false, Bool.and_true, Bool.not_eq_false', List.isEmpty_iff] at hex
     have hnil := sortPairs_eq_nil _ hex
     have hall : ∀ p ∈ kw, s.argNames.contains p.1 = true ∧ s.poNames.contains p.1 = false := by
@@ -230,9 +242,9 @@ theorem flat_kw (s : Sig) (kw : List (Nat × Nat)) (hs : s.flat = true)
         rw [(hall p hp).1]; simp
       rw [this]; rfl
 
-/-- on a flat signature the key of a call that binds is exactly a flat print of its binding -/
+/-- the key of a `callFlat` call that binds is exactly a flat print of its binding -/
 theorem key_of_bind (s : Sig) (args : List Nat) (kw : List (Nat × Nat)) (b : Binding)
-    (hs : s.flat = true) (hb : s.bind args kw = .ok b) :
+    (hs : callFlat s args kw = true) (hb : s.bind args kw = .ok b) :
     s.key args kw = .ok ((b.params ++ b.rest).map KeyElem.ofVal ++ b.extra.map (fun p => KeyElem.kw p.1 p.2))
     ∧ b.params.length = s.pos.length + s.kwonly.length
     ∧ b.rest = args.drop s.pos.length
@@ -253,7 +265,7 @@ theorem key_of_bind (s : Sig) (args : List Nat) (kw : List (Nat × Nat)) (b : Bi
         · rename_i hex
           have hex' : (!(sortPairs (kw.filter fun p => !s.argNames.contains p.1 || s.poNames.contains p.1)).isEmpty && !s.varkw) = false := by
             simpa using hex
-          obtain ⟨hkwN, hext⟩ := flat_kw s kw hs hex'
+          obtain ⟨hkwN, hext⟩ := flat_kw s args kw hs hex'
           rw [hkwN] at hf
           have hvk : s.varkw = false → extras kw s.argNames = [] := by
             intro hv
@@ -279,8 +291,11 @@ theorem key_of_bind (s : Sig) (args : List Nat) (kw : List (Nat × Nat)) (b : Bi
               simp only [Bool.and_eq_true, decide_eq_true_eq, Bool.not_eq_true', not_and, Bool.not_eq_false] at h1
               exact h1 (by omega)
             have hk : s.kwonly = [] := by
-              simp only [Sig.flat, hva, Bool.not_true, Bool.false_or, Bool.and_eq_true, List.isEmpty_iff] at hs
-              exact hs.1
+              simp only [callFlat, hva, Bool.true_and, Bool.and_eq_true, Bool.or_eq_true, Bool.not_eq_true',
+                Bool.not_eq_false', List.isEmpty_iff, decide_eq_true_eq] at hs
+              rcases hs.1 with h | h
+              · exact h
+              · exact absurd h hle
             have hd1 : s.argNames.drop args.length = [] := by
               apply List.drop_of_length_le
               simp [Sig.argNames, Sig.posNames, Sig.kwNames, hk]; omega
@@ -327,7 +342,7 @@ theorem key_ok_of_bind (s : Sig) (args : List Nat) (kw : List (Nat × Nat)) (b :
 /-- **key normalisation** for calls on which the default key is faithful (`callOk`): two calls that bind have the
     same key iff they bind the same -/
 theorem key_eq_iff_bind_eq (s : Sig) (a1 a2 : List Nat) (k1 k2 : List (Nat × Nat))
-    (h1 : callOk s a1 = true) (h2 : callOk s a2 = true)
+    (h1 : callOk s a1 k1 = true) (h2 : callOk s a2 k2 = true)
     (b1 b2 : Binding) (t1 t2 : List KeyElem)
     (hb1 : s.bind a1 k1 = .ok b1) (hb2 : s.bind a2 k2 = .ok b2)
     (ht1 : s.key a1 k1 = .ok t1) (ht2 : s.key a2 k2 = .ok t2) :
@@ -373,9 +388,22 @@ theorem key_eq_iff_bind_eq (s : Sig) (a1 a2 : List Nat) (k1 k2 : List (Nat × Na
     simp_all
   · intro h; rw [h]
 
-theorem callOk_of_ok (s : Sig) (args : List Nat) (h : s.ok = true) : callOk s args = true := by
+theorem callFlat_of_flat (s : Sig) (args : List Nat) (kw : List (Nat × Nat)) (h : s.flat = true) :
+    callFlat s args kw = true := by
+  simp only [Sig.flat, Bool.and_eq_true, Bool.or_eq_true, Bool.not_eq_true', beq_iff_eq, List.isEmpty_iff] at h
+  simp only [callFlat, Bool.and_eq_true, Bool.or_eq_true, Bool.not_eq_true', Bool.and_eq_false_iff, bne_eq_false_iff_eq,
+    Bool.not_eq_false', List.isEmpty_iff]
+  refine ⟨?_, ?_⟩
+  · rcases h.1 with h1 | h1
+    · exact Or.inl (Or.inl h1)
+    · exact Or.inl (Or.inr h1)
+  · rcases h.2 with h2 | h2
+    · exact Or.inl (Or.inl h2)
+    · exact Or.inl (Or.inr h2)
+
+theorem callOk_of_ok (s : Sig) (args : List Nat) (kw : List (Nat × Nat)) (h : s.ok = true) : callOk s args kw = true := by
   simp only [Sig.ok, Bool.and_eq_true, Bool.not_eq_true'] at h
-  simp [callOk, h.1, h.2]
+  simp [callOk, callFlat_of_flat s args kw h.1, h.2]
 
 /-! ## dict lemmas -/
 
@@ -469,7 +497,7 @@ theorem pget_ploosen_none (m : List (RKey × List (Option Nat))) (fn th : Nat) (
     is faithful -/
 def KeyRel (fns : List FnDecl) (k : Key) (rk : RKey) : Prop :=
   k.fn = rk.fn ∧ k.th = rk.th ∧
-    ∃ d args kw, fns[rk.fn]? = some d ∧ callOk d.sig args = true ∧ d.sig.bind args kw = .ok rk.b ∧
+    ∃ d args kw, fns[rk.fn]? = some d ∧ callOk d.sig args kw = true ∧ d.sig.bind args kw = .ok rk.b ∧
       d.sig.key args kw = .ok k.tup
 
 theorem keyrel_inj (fns : List FnDecl) (k k' : Key) (rk rk' : RKey)
@@ -501,6 +529,7 @@ structure TRel (fns : List FnDecl) (t : Task) (x : WTask) : Prop where
   started : x.started = t.started
   b : x.rk.b = t.b
   key : KeyRel fns t.key x.rk
+  out : x.out = t.out
 
 structure Rel (fns : List FnDecl) (s : St) (w : Watch) : Prop where
   len : w.info.length = s.tasks.length
